@@ -267,7 +267,7 @@ template <typename T> static void linesFor(bool thorough)
 	typedef Bits<T> BT;
 	const bool isF = sizeof(T) == 4;
 	std::vector<u64> full = isF ? latticeF(true) : latticeD(true), small = isF ? latticeF(false) : latticeD(false);
-	const int nrand = thorough ? 400000 : 20000;
+	const int nrand = thorough ? 300000 : 8000;
 	u64 a[4];
 	// unary: full lattice + random (binary32 is also swept exhaustively / on the 13-bit lattice in sweep mode)
 	for (const char* op : UNARY_LINE_OPS) {
